@@ -180,6 +180,9 @@ def gen_ecorpus(seed):
                  # declared GLOBAL paths select global attributes and nothing else
                  dict(kind="derive_input", names=["::a", "b"], fwd=["::keep", "a", "b"], attrs_field="plain"),
                  dict(kind="field", names=["::my::attr"], fwd=["::doc", "::my::attr"], attrs_field="fa_len"),
+                 # names that are keywords: declared and written `r#name`, the same name throughout
+                 dict(kind="derive_input", names=["final", "b"], fwd=["override", "doc"], attrs_field="plain"),
+                 dict(kind="field", names=["final"], fwd="all", attrs_field="fa_len"),
                  dict(kind="type_param", names=["a"], fwd=["doc"], attrs_field="fa_max1")]:
         x = base(rng, nm(), spec["kind"], recvs, by_name, nfields=0 if not spec["names"] else 2, names=spec["names"], fwd=spec["fwd"],
                  attrs_field=spec["attrs_field"])
@@ -191,6 +194,14 @@ def gen_ecorpus(seed):
         for f in x["fields"]:
             f["name"] = f["rename"] or apply_to_field(x["cinfo"]["rename_all"], f["ident"])
     return out, first
+
+
+KEYWORDS = set("as break const continue else enum extern false fn for if impl in let loop match mod move mut pub ref return static struct trait true "
+               "type unsafe use where while async await dyn abstract become box do final macro override priv typeof unsized virtual yield try".split())
+
+
+def kw(n):
+    return "r#" + n if n in KEYWORDS else n
 
 
 # ---------------------------------------------------------------- Rust rendering
@@ -236,9 +247,9 @@ def container_attr(x):
     c = x["cinfo"]
     it = []
     if x["attr_names"]:
-        it.append("attributes(%s)" % ", ".join(x["attr_names"]))
+        it.append("attributes(%s)" % ", ".join(kw(n) for n in x["attr_names"]))        # a keyword name is written `r#name`
     if x["fwd"] is not None:
-        it.append("forward_attrs" if x["fwd"] == "all" else "forward_attrs(%s)" % ", ".join(x["fwd"]))
+        it.append("forward_attrs" if x["fwd"] == "all" else "forward_attrs(%s)" % ", ".join(kw(n) for n in x["fwd"]))
     if x["supports"]:
         it.append("supports(%s)" % ", ".join(x["supports"]))
     if x["from_ident"]:
